@@ -13,7 +13,7 @@ LEVEL = "exploration"
 TECHNIQUE = "runtime monitor: all getters after every operation vs exact rational weighted moments / exact step-function integral"
 RULE = ("family W: seeded (weight, value) sequences with weights from {0, tiny, 1, large, random}, all-zero prefixes "
         "and whole histories, equal values, rejected inputs (negative/NaN weight, NaN value, str) and initialize(), on "
-        "WeightedTally / EventBasedWeightedTally(+subscriber; register and notify); family T: (time, value) sequences "
+        "WeightedTally / EventBasedWeightedTally(+subscriber; register and notify), 20% 'sparse' cases asking one getter at a few moments only; family T: (time, value) sequences "
         "with repeated timestamps, int/float times, close at/after the last timestamp or with no observation, "
         "observations after closing (later, equal and earlier timestamps), earlier timestamps, re-initialise and "
         "reuse, on TimestampWeightedTally / EventBasedTimestampWeightedTally(+subscriber; register and notify); "
@@ -67,7 +67,16 @@ def gen_case(rng, tier, i):
             ops.append(["obs", w, _value(rng, klass)])
         if rng.random() < 0.3:
             ops.append(["bad", rng.choice(["negw", "nanw", "nanv"])])
-        return {"fam": "W", "cls": cls, "entry": entry, "ops": ops}
+        case = {"fam": "W", "cls": cls, "entry": entry, "ops": ops}
+        obs = [o for o in ops if o[0] == "obs"]
+        if len(obs) >= 4 and rng.random() < 0.2:
+            # 'sparse' mode: one getter, asked only at a few moments, equally many observations before and after a
+            # re-initialisation with nothing queried in between (a memoised answer must not survive new data or a reset)
+            k = min(len(obs) // 2, 12)
+            case["sparse"] = rng.choice(["n", "min", "max", "weighted_sum", "weighted_mean", "weighted_variance_b", "weighted_variance_u",
+                                         "weighted_stdev_b", "weighted_stdev_u"])
+            case["ops"] = obs[:k] + [["q"], ["init"]] + obs[-k:] + [["q"], obs[0], ["q"], ["init"]] + obs[:k] + [["q"]]
+        return case
     cls = rng.choice(["TimestampWeightedTally", "EventBasedTimestampWeightedTally", "EventBasedTimestampWeightedTally+sub",
                       "EventBasedTimestampWeightedTally+sub"])
     entry = rng.choice(["register", "notify"]) if cls.startswith("EventBased") else "register"
@@ -106,12 +115,14 @@ def gen_case(rng, tier, i):
     return {"fam": "T", "cls": cls, "entry": entry, "ops": ops}
 
 
-def _getters(ctx, t, where):
+def _getters(ctx, t, where, only=None):
     out = {}
     calls = {"n": t.n, "min": t.min, "max": t.max, "weighted_sum": t.weighted_sum, "weighted_mean": t.weighted_mean,
              "weighted_variance_b": t.weighted_variance, "weighted_variance_u": lambda: t.weighted_variance(False),
              "weighted_stdev_b": t.weighted_stdev, "weighted_stdev_u": lambda: t.weighted_stdev(False)}
     for name, fn in calls.items():
+        if only is not None and name != only:
+            continue
         try:
             out[name] = fn()
         except Exception as e:
@@ -141,7 +152,7 @@ def _judge(ctx, got, want, where, skip=()):
     from vlib.exactstats import close
     from vlib.base import fx
     for name, (w, tol) in want.items():
-        if name in skip:
+        if name in skip or name not in got:
             continue
         g = got[name]
         if isinstance(g, tuple) and g and g[0] == "raised":
@@ -190,6 +201,8 @@ def run_case(case, ctx):
         elif op[0] == "init":
             t.initialize()
             ex.reset()
+        elif op[0] == "q":
+            pass
         else:
             w, v = {"negw": (-1.0, 2.0), "nanw": (math.nan, 2.0), "nanv": (1.0, math.nan), "strw": ("x", 2.0), "strv": (1.0, "x")}[op[1]]
             before = fx(list(_getters(ctx, t, where).values()))
@@ -215,7 +228,12 @@ def run_case(case, ctx):
                 ctx.viol("rejected-input-changed-getters", where)
                 return
             continue
-        got = _getters(ctx, t, where)
+        sparse = case.get("sparse")
+        if sparse:
+            if op[0] != "q":
+                continue
+            ctx.count("sparse_queries")
+        got = _getters(ctx, t, where, only=sparse)
         if ex.n > 0 and ex.W == 0:
             ctx.count("zero_total_weight_states")
         if not _judge(ctx, got, ex.expected(), where):
